@@ -178,6 +178,23 @@ CLAIMS = {
          'scheduler but not itself part of the Lean model.',
          'Lean 4 proof (invariant over the admission fold) + differential correspondence under a deterministic scheduler'),
 
+ 'C11': ('Lean 4 theorems. In process (Props/C11a): observer_simulates, observer_never_rejects_accepted, feed_public_state, related_agree — a '
+         'single-seat observer (any seat, dummy included) fed the public sequence of plays, with dummy\'s hand supplied after the opening lead, '
+         'accepts every play the full-information game accepts and holds the same public state (the PStates are EQUAL) and the true remaining '
+         'hands, for every deal, contract and play sequence. On the network (Props/C11): server_reads_the_calls / server_plays_the_cards (the '
+         'table manager reads exactly what the seats decided, through the protocol parsers), client_auction_replica + '
+         'client_contract_is_servers (at every prefix of the auction every client\'s replica IS the table manager\'s; same contract and '
+         'declarer), client_play_replica (after every prefix of the play every client has not raised and its replica is related to the table '
+         'manager\'s game: same turn, trick number, leaders, history, counts), bundled_clients_conform (four WeakBid + RandomPlay clients, for '
+         'EVERY deal and every result of random.choice, produce a complete legal auction, 52 accepted plays and texts that parse back), '
+         'bundled_client_completes_session (hence every schedule of such a session completes, by C09). Tie to /repo: lock step of the real '
+         'PlayingPhaseWithHands and four real ObservedPlayingPhase with injected illegal plays, every public field after every card; four real '
+         'bundled Client objects (bundled and seeded random-legal systems) against the threaded server under the scheduler, their '
+         'bidding_phase() results and final play replicas compared with the log.',
+         'Trusted: Lean kernel (3 standard axioms); the message parsers\' models (C19); primitive semantics as C09; the client replica is observed '
+         'through a recording subclass substituted in the client module\'s namespace by the harness.',
+         'Lean 4 proof (simulation relation; induction over calls / cards through the parser models) + lock-step and network correspondence'),
+
  'C19': ('Lean 4 theorems about the models of the message builders and parsers of both ends (each parser = its regular expression with re.match '
          'semantics: greedy groups with backtracking, case-insensitive literals): hand_msg_round_trip (any hand, voids, any seat name / Dummy), '
          'bid_msg_round_trip (38 calls x 4 seats, ANY letter case), bid_msg_alert_round_trip (alert suffix stripped, same call), '
